@@ -679,6 +679,9 @@ def targets(tier='quick'):
     T.append(TraceTarget(3, evolve=True, query_first=True))
     for n in (2, 3, 4, 5, 6):
         T.append(SharesTarget(n))
+    from . import wire
+    T.append(wire.ChainAssemblyTarget(PROP))       # what the chain hands to PT-TEBD IS the documented two-site generator
+    T.append(wire.OperatorsTarget(PROP, replay_func='two_site_chain_vs_dense'))
     return T
 
 
